@@ -4,7 +4,7 @@
      (ops OP..) (qs Q..)      same language as harness qv_types; prints
                               (ids ..) (rs ..) (reg (tuples ..) (types ..))   [model run]
      (oracle (reg (tuples TU..) (types TY..)) (depth n) (cap c) (checks CHK..))
-        CHK ::= (sound a b) | (disjoint a b) | (isect a b r) | (compl o n r) | (dom t) | (count t)
+        CHK ::= (sound a b) | (disjoint a b) | (isect a b r) | (compl o n r) | (filter parent idx must r) | (dom t) | (count t)
         prints (o R..),  R ::= ok | nodom | (cex VALUE) | 0 | 1 | COUNT
    The registry of an oracle line is loaded verbatim (no dedup): it is the dump of the REAL
    Program after the calls. *)
@@ -82,6 +82,7 @@ let rec dump_value = function
 let fuel = nat_of_int 100000
 let walk_fuel = nat_of_int 64
 let cfg = ref current_cfg
+let filter_by_overlap = ref current_filter_by_overlap
 
 let apply_op (p : registry) (op : Sexp.t) : registry * nat =
   match op with
@@ -101,7 +102,7 @@ let run_query (p : registry) (q : Sexp.t) : registry * string =
      | "overlap" -> (p, str_bool (types_overlap_with !cfg fuel p (id 0) (id 1)))
      | "isect" -> upd (intersect_types !cfg fuel fuel p (id 0) (id 1))
      | "compl" -> upd (compute_complement !cfg fuel fuel p (id 0) (id 1))
-     | "filter" -> upd (filter_variants_by_field !cfg fuel p (id 0) (id 1) (id 2))
+     | "filter" -> upd (filter_variants_by_field !cfg fuel !filter_by_overlap p (id 0) (id 1) (id 2))
      | "unionids" -> upd (Some (union_type_ids p (List.map nat_atom a)))
      | _ -> failwith ("bad query " ^ h))
   | _ -> failwith "bad query"
@@ -140,6 +141,7 @@ let run_oracle args =
          | "disjoint" -> if indom () then show (cex_disjoint reg walk_fuel cap depth (id 0) (id 1)) else "nodom"
          | "isect" -> if indom () then show (cex_intersect reg walk_fuel cap depth (id 0) (id 1) (id 2)) else "nodom"
          | "compl" -> if indom () then show (cex_complement reg walk_fuel cap depth (id 0) (id 1) (id 2)) else "nodom"
+         | "filter" -> if closedb reg (id 0) && closedb reg (id 2) then show (cex_filter reg walk_fuel cap depth (id 0) (id 1) (id 2) (id 3)) else "nodom"
          | "dom" -> if closedb reg (id 0) then "1" else "0"
          | "count" -> string_of_int (i (count reg walk_fuel cap depth (id 0)))
          | _ -> failwith ("bad check " ^ h))
@@ -149,6 +151,7 @@ let run_oracle args =
 let () =
   let argv = Array.to_list Sys.argv in
   let rec opts = function
+    | "--filter-by-overlap" :: rest -> filter_by_overlap := true; opts rest
     | "--cfg" :: v :: rest ->
       cfg := (match v with "legacy" -> legacy_cfg | "f7" -> f7_cfg | "fixed" -> fixed_cfg | "partial" -> partial_cfg | "current" -> current_cfg | _ -> failwith "bad cfg");
       opts rest
